@@ -117,6 +117,7 @@ LifePlans(n, v) ==
     \cup {<<OpDecodeLit(1, st[1], st[2], "valid"), OpReset(1), OpDecodeInto(1, st[1], st[2]), OpEncode(1, "DER"), OpFree(1)>>}
     \cup {<<OpArm(k), OpDecodeLit(1, st[1], st[2], "armed"), OpFree(1)>> : k \in 1..MaxFail}
     \cup {<<OpBuild(1), OpArm(k), OpEncode(1, st[1]), OpFree(1)>> : k \in 1..3}
+    \cup {<<OpBuild(1), OpAllocSweepEnc(1, st[1]), OpFree(1)>>, <<OpAllocSweepDec(st[1], st[2])>>}
     \cup {<<OpDecodeAny(1, st[1], m[2], m[1]), OpFree(1)>> : m \in {x \in Mutations(st[2]) : x[1] \in {"truncate", "drop-byte"}}}
     \cup {<<OpDecodeAny(1, st[1], m[2], m[1]), OpReset(1), OpDecodeInto(1, st[1], st[2]), OpFree(1)>> :
             m \in {x \in Mutations(st[2]) : x[1] = "dup-tail"}}
